@@ -202,6 +202,35 @@ def run(ctx):
 
     drive.for_each_case(ctx, 'main', ctx.budget, body, gen=gen_main)
 
+    # the message of a failing document stream names the position of every failing document, exactly as List[T] does for the same data
+    def body_yaml_all(i, rng, ty, T):
+        import io as _io
+        import yaml as _yaml
+        import typing as _t
+        from ..entrypoints import jsonable, _only_plain_carriers
+        docs = []
+        for _ in range(rng.randint(2, 4)):
+            v = genval.mutate(genval.member(ty, rng), rng, n=rng.choice((1, 2)))
+            if _only_plain_carriers(v) and jsonable(v):
+                docs.append(v)
+        if len(docs) < 2:
+            return
+        text = _yaml.safe_dump_all(docs, sort_keys=False, explicit_start=True)
+        if list(_yaml.safe_load_all(text)) != docs:
+            return
+        ref = observe(lambda: env.m_converters.SequenceConverter(list, T).convert(docs))
+        got = observe(env.m_io.from_yaml_all, _io.StringIO(text), T)
+        if ref.kind != 'converr':
+            return
+        ctx.count('yaml_all_messages')
+        rt, gt = observe(str, ref.exc), observe(str, got.exc) if got.kind == 'converr' else got
+        if got.kind != 'converr' or gt.kind != 'value' or rt.val != gt.val:
+            ctx.violation('required-tokens', 'yaml_all', i, {'type': describe(ty), 'documents': short(docs, 300), 'message_for_List[T]': short(rt.val, 400),
+                                                             'message_of_from_yaml_all': gt.brief() if got.kind == 'converr' else got.brief()},
+                          mech='from_yaml_all:message-differs-from-List[T]')
+
+    drive.for_each_case(ctx, 'yaml_all', max(40, ctx.budget // 5), body_yaml_all, gen=gen_main)
+
     def body_dc(i, rng, ty, T):
         for j in range(4):
             d, faults = c07.faulty_dc_value(ty, rng)
